@@ -103,6 +103,14 @@ func Explore(sc *Scenario, shard, nshards int, deadline time.Time) *Stats {
 			res := runOnce(sc, it.prefix, false)
 			isRoot := !rootDone
 			rootDone = true
+			if res.Hung {
+				// cannot be re-executed (it does not end) and the spinning goroutine is still there: report and stop this worker
+				st.Violations = append(st.Violations, &Violation{Scenario: sc.Name, Sig: res.FailSig, Kind: res.FailKind, Message: res.Failure, Choices: append([]uint8{}, res.Choices...), Devs: it.devs, Replays: 1, Count: 1})
+				st.Exhaustive = false
+				st.CapHit = "an execution did not terminate (busy loop): exploration of this shard stopped"
+				st.WallS = time.Since(start).Seconds()
+				return st
+			}
 			if res.Diverged || res.FailKind == "internal" {
 				st.Internal = fmt.Sprintf("scenario %s: %s (prefix %v)", sc.Name, res.Failure, it.prefix)
 				st.Exhaustive = false
